@@ -84,6 +84,9 @@ def gen_entry(rng):
         addr = (0x20010DB8 << 96) | rng.getrandbits(96)
     elif fam == 6 and rng.random() < 0.2:
         addr = (0xFE80 << 112) | rng.getrandbits(16)  # link-local, the peers that come with a zone
+    elif fam == 6 and rng.random() < 0.15:
+        addr = (0xFFFF << 32) | (10 << 24) | rng.getrandbits(8)  # inside ::ffff:0:0/96, the IPv4-mapped range
+        plen = rng.choice([0, 16, 64, 80, 96, 104, 120, 128])
     mask = ((1 << bits) - 1) ^ ((1 << (bits - plen)) - 1)
     fmt = v4 if fam == 4 else v6
     r = rng.random()
@@ -116,7 +119,11 @@ def peers_for(rng, entries):
                 if 0 < val <= 0xFFFFFFFF:
                     out.append((v4(val), "twin4:" + pos))
                     out.append((v6(val), "same-int-as-v4:" + pos))
-        elif net + size - 1 <= 0xFFFFFFFF:
+        if fam == 6 and net <= 0xFFFF0A000005 <= net + size - 1:
+            # an IPv6 entry that covers (part of) the IPv4-mapped range: peers inside it
+            out.append(("::ffff:10.0.0.5", "v4-mapped:inside-v6-entry"))
+            out.append(("::ffff:a00:5", "v4-mapped:inside-v6-entry"))
+        if fam == 6 and net + size - 1 <= 0xFFFFFFFF:
             for pos, val in (("net", net), ("bcast", net + size - 1)):
                 out.append((v6(val), "twin6:" + pos))
                 out.append((v4(val), "same-int-as-v6:" + pos))
@@ -178,9 +185,19 @@ def model_lists(cfg):
 
 def judge(ctx, cfg, via, peer, pos, observed_admit, status, wit_extra=None):
     allow, deny, malformed, hostbits = model_lists(cfg)
-    if pos == "v4-mapped":
-        ctx.undecided("v4-mapped-peer")
-        return
+    if pos.startswith("v4-mapped"):
+        # an IPv4-mapped IPv6 peer (::ffff:a.b.c.d) IS an IPv6 address: IPv6 entries decide about it by plain
+        # containment.  Whether an IPv4 entry covering a.b.c.d should count as well is a matter of taste and stays
+        # grey - so the case is only judged when no IPv4 entry of the configuration contains the embedded address
+        a6 = cidr.parse_addr(peer)
+        if a6 is None or a6[0] != 6:
+            ctx.undecided("v4-mapped-peer")
+            return
+        embedded = (4, a6[1] & 0xFFFFFFFF)
+        if any(e[0] == 4 and cidr.contains(e, embedded) for e in (allow or []) + (deny or [])):
+            ctx.undecided("v4-mapped-peer-with-ipv4-entry-covering-it")
+            return
+        ctx.count("monitor", "v4_mapped_peers_judged")
     if cfg["allow"] == []:
         ctx.undecided("empty-allow-list")
         return
@@ -385,7 +402,7 @@ def run(ctx):
             if ctx.quick():
                 # a sample, but the rare classes (numeric twins across families, zoned and expanded spellings) always
                 # stay in, next to each other and in their original order
-                keep = [i for i, (_, pos) in enumerate(peers) if pos.startswith(("twin", "same-int", "scoped6", "expanded6"))]
+                keep = [i for i, (_, pos) in enumerate(peers) if pos.startswith(("twin", "same-int", "scoped6", "expanded6", "v4-mapped:inside"))]
                 rest = [i for i in range(len(peers)) if i not in set(keep)]
                 chosen = sorted(set(keep[:16]) | set(rng.sample(rest, min(len(rest), 24))))
                 peers = [peers[i] for i in chosen]
